@@ -556,7 +556,7 @@ func genStream(t *rapid.T, o streamOpts) Stream {
 		s.Units = append(s.Units, u)
 	}
 	s.Pad = 130
-	if pbt.Thorough() && rapid.IntRange(0, 19).Draw(t, "driftRun") == 0 {
+	if pbt.Thorough() && rapid.IntRange(0, 39).Draw(t, "driftRun") == 23 { // a mid-range value: rapid favours the bounds
 		s.Pad = 5000
 	}
 	return s
